@@ -4239,7 +4239,7 @@ class Field(_FieldIO):
 
         if xa.attrs["nvdim"] < 1:
             raise ValueError('"nvdim" attribute must be greater or equal to 1.')
-        elif not isinstance(xa.attrs["nvdim"], int):
+        elif not isinstance(xa.attrs["nvdim"], numbers.Integral):
             raise TypeError("The value of nvdim must be an integer.")
 
         if xa.attrs["nvdim"] > 1 and "vdims" not in xa.dims:
